@@ -83,9 +83,9 @@ pub fn generate(_cfg: &RunCfg, _out: &mut Outcome) -> Scenario {
         let long = c == 0 && t::chance(1, 12);
         let reqs = if long {
             let n = t::pick(&[40usize, 64, 65, 100, 128, 129, 200, 256, 257, 300]);
-            sess::gen_sequence(c, &SeqOpts { min: n, max: n, allow_malformed: true, allow_close: false, max_body: 300, allow_delay: false })
+            sess::gen_sequence(c, &SeqOpts { min: n, max: n, allow_malformed: true, allow_close: false, max_body: 300, allow_delay: false, shapes: true })
         } else {
-            sess::gen_sequence(c, &SeqOpts { min: 2, max: if c == 0 { 12 } else { 5 }, allow_malformed: true, allow_close: true, max_body: 3000, allow_delay: true })
+            sess::gen_sequence(c, &SeqOpts { min: 2, max: if c == 0 { 12 } else { 5 }, allow_malformed: true, allow_close: true, max_body: 3000, allow_delay: true, shapes: true })
         };
         let think_ms = reqs.iter().map(|_| if long { 0 } else { t::pick(&[0u64, 0, 1, 30, 2000]) }).collect();
         let eager = t::chance(1, 3);
@@ -307,12 +307,26 @@ fn execute(sc: &Scenario, out: &mut Outcome) {
             // 3. the fresh baseline against the reference model
             match (f, &it.malformed) {
                 (Ok(fr), None) => {
-                    if fr.status != 200 || fr.header("X-Dump").is_none() {
+                    let shape = it.spec.headers.iter().find(|(n, _)| n == "x-shape").map(|(_, v)| String::from_utf8_lossy(v).into_owned()).unwrap_or_default();
+                    let want = if shape == "204" { 204 } else { 200 };
+                    if fr.status != want || fr.header("X-Dump").is_none() {
                         out.violate("fresh-baseline-matches-reference", format!("status-{}", fr.status), format!("conn {ci} request {k} alone on a fresh connection: {}; request={shown}", describe(f)));
                         return;
                     }
-                    if !it.is_head() {
-                        if let Some((aspect, msg)) = sess::dump_diff(&fr.body_text(), &it.spec) {
+                    if !shape.is_empty() {
+                        out.probe("c05.response_without_content_length");
+                        if fr.header("Content-Length").is_some() {
+                            out.violate("fresh-baseline-matches-reference", "length-on-a-lengthless-shape", format!("conn {ci} request {k}: a {shape} response carries Content-Length; request={shown}"));
+                            return;
+                        }
+                        if k + 1 < plan.reqs.len() {
+                            out.probe("c05.request_after_response_without_content_length");
+                        }
+                    }
+                    if !it.is_head() && shape != "204" {
+                        // the stream shape sends the same lines as events
+                        let text = if shape == "stream" { fr.body_text().lines().filter_map(|l| l.strip_prefix("data: ").map(|s| s.to_string())).collect::<Vec<_>>().join("\n") } else { fr.body_text() };
+                        if let Some((aspect, msg)) = sess::dump_diff(&text, &it.spec) {
                             out.violate("fresh-baseline-matches-reference", aspect, format!("conn {ci} request {k} alone on a fresh connection: {msg}; request={shown}"));
                             return;
                         }
